@@ -415,8 +415,18 @@ class Run:
     env, pg = self.env, self.env.pg
     script = list(w['script'])
     i = 0
-    for _, fb in pg.sample(self.spec, self.algo, num_examples=self.case['max'], name=self.name,
-                           group=w['group'], early_stopping_policy=self.policy):
+    gen = pg.sample(self.spec, self.algo, num_examples=self.case['max'], name=self.name,
+                    group=w['group'], early_stopping_policy=self.policy)
+    try:
+      self.iterate(tid, w, gen, script)
+    finally:
+      if self.sched.abort:
+        self.sched.unwinding.add(tid)      # closing the generator of an aborted run is not a scheduling point
+      gen.close()
+
+  def iterate(self, tid, w, gen, script):
+    i = 0
+    for _, fb in gen:
       self.snapshot(tid)
       dr = self.case.get('dr', 10)
       act = script[i] if i < len(script) else ['done', dr + (int(fb.id) if dr > 0 else -int(fb.id) if dr < 0 else 0)]
@@ -984,7 +994,7 @@ class C16(Prop):
           yield dict(base, sched={'mode': 'directives', 'd': [['hot', a, 0]]})
         if tier == 'thorough':
           for a in range(0, horizon):
-            for b in range(a + 1, min(horizon, a + 23)):
+            for b in range(a + 1, min(horizon, a + 16)):
               yield dict(base, sched={'mode': 'directives', 'd': [['hot', a, 0], ['hot', b, 0]]})
 
   SMALL = [
